@@ -11,6 +11,18 @@ clause checker (spec_case, proved to accept the model: theorem model_meets_spec)
 Coq on the same cases.  A case on which the clause checker rejects the implementation's observations
 is a failing input of the property; a case where only model and implementation differ is a
 correspondence break.
+
+Several blocks open at the same time (Model/C12_nested.v, theorems nested_blocks_independent,
+nested_blocks_no_debris, two_decompress_blocks_independent): the harness enters, uses and leaves
+1-4 compress / decompress context managers one event at a time (nested, overlapping, sequential and
+random interleavings; archives with the same stem in different directories or with different
+suffixes; shared explicit / default temporary directory; bystander files named like the stem, the
+archive or 'temp' in the temporary directory; exceptions in the bodies).  The same history is
+evaluated in Coq on the shared-file-system model with a concrete fresh-name oracle and on the ideal
+history (every block keeps its copy to itself); the laws (clauses 9-14: each block reads the bytes
+of ITS archive, leaving raises nothing, no temporary entry remains, archives and bystanders are
+byte for byte what they were, each target holds the bytes of its own block, a block that enters
+alone enters beside others) are judged in Coq against the ideal history.
 """
 import ast
 import json
@@ -24,7 +36,7 @@ from lib.core import coq_list, zlist
 
 HARNESS = core.VERIF / "tools" / "harness" / "c12_run.py"
 GENFILE = core.GEN / "C12_formats.v"
-PREAMBLE = ("From Typhon Require Import Model.C12_compress.\n"
+PREAMBLE = ("From Typhon Require Import Model.C12_compress Model.C12_nested.\n"
             "From TyphonGen Require Import C12_formats.\n")
 ADVERTISED = ["gz", "bz2", "zip", "xz"]
 TRUSTED = [
@@ -35,6 +47,8 @@ TRUSTED = [
     "exercised on every case by opening the stored file with the standard library",
     "os.path.splitext / basename, str.lstrip / endswith: modelled on character lists, compared with Python on generated names",
     "tempfile.TemporaryDirectory removes its directory on every exit of the with-statement; os.unlink removes the file (modelled, exercised)",
+    "tempfile.NamedTemporaryFile(delete=False) / TemporaryDirectory return a name that did not exist: hypotheses fresh_file_ok / "
+    "fresh_dir_ok of nested_blocks_independent (exercised: histories of up to four blocks open together, bystander files)",
 ]
 
 
@@ -426,6 +440,15 @@ CLAUSES = {
     6: "the decompressed copy still exists after the decompress block",
     7: "compress followed by decompress did not return the bytes written",
     8: "decompress did not pass a name without compression suffix through",
+    9: "a decompress block did not read the bytes of ITS archive while another block was or had been open "
+       "(other bytes, or its decompressed copy had vanished)",
+    10: "leaving a with-block raised an exception of its own while other blocks were or had been open",
+    11: "a temporary file or directory remains after all with-blocks of the history were left",
+    12: "a file that is not the target of a compress block (an archive, a bystander in the temporary directory) "
+        "was changed or removed by the history",
+    13: "the target of a compress block that was open together with other blocks is not an archive of the bytes "
+        "written in its own block",
+    14: "a with-block that can be entered when it is alone raised on entry while other blocks were or had been open",
 }
 
 
@@ -550,6 +573,344 @@ def member_py(c):
     return member_of(c["name"])
 
 
+# ----------------------------------------------------------------------------- histories of several blocks
+# (Model/C12_nested.v; theorems nested_blocks_independent / nested_blocks_no_debris)
+
+TMPHINT = {"explicit": "T", "default": "D"}
+WHERE = {"work": "W/", "explicit": "T/", "default": "D/"}
+
+
+def with_uses(order, skip_write=()):
+    """insert a Use of every open block after each Enter / Leave (a compress block in skip_write never writes)"""
+    evs, opened = [], []
+    for e in order:
+        evs.append(list(e))
+        if e[0] == "E" and e[1] not in opened:
+            opened.append(e[1])
+        elif e[0] == "L" and e[1] in opened:
+            opened.remove(e[1])
+        for i in sorted(opened):
+            if i not in skip_write:
+                evs.append(["U", i])
+    return evs
+
+
+def archive_file(name, tokens, watch=True, **kw):
+    d = {"where": "work", "path": name, "kind": "archive", "fmt": fmt_of(name), "member": member_of(name),
+         "tokens": list(tokens), "watch": watch}
+    d.update(kw)
+    return d
+
+
+def bystander(where, path, tokens):
+    return {"where": where, "path": path, "kind": "raw", "tokens": list(tokens), "watch": True}
+
+
+class HistBuilder:
+    """allocates content tokens that are unique within one history"""
+
+    def __init__(self, rng_seed):
+        self.tokblocks = {}
+        self.nexttok = 1
+        self.seed = rng_seed
+
+    def content(self, *sizes, kind="rand"):
+        toks = []
+        for sz in sizes:
+            t = self.nexttok
+            self.nexttok += 1
+            self.tokblocks[str(t)] = {"kind": kind, "size": int(sz) + t, "seed": self.seed * 1000 + t}
+            toks.append(t)
+        return toks
+
+
+def dec_block(name, tmpdir):
+    return {"kind": "dec", "name": name, "tmpdir": tmpdir}
+
+
+def comp_block(name, b, tmpdir, fmtarg=None):
+    return {"kind": "comp", "name": name, "tmpdir": tmpdir, "fmtarg": fmtarg, "b": list(b),
+            "fmt_eff": fmtarg if fmtarg is not None else fmt_of(name)}
+
+
+NEST2 = {
+    "nested": lambda e0, e1: [("E", 0), ("E", 1), ("L", 1, e1), ("L", 0, e0)],
+    "overlapping": lambda e0, e1: [("E", 0), ("E", 1), ("L", 0, e0), ("L", 1, e1)],
+    "sequential": lambda e0, e1: [("E", 0), ("L", 0, e0), ("E", 1), ("L", 1, e1)],
+}
+
+
+def gen_hists(ctx, first_id):
+    hists = []
+
+    def add(label, hb, blocks, events, files):
+        for b in blocks:
+            assert "/tmp" not in "W/" + b["name"]       # hypothesis user_names_ok of the theorem (istmp0)
+        hists.append({"id": first_id + len(hists), "hist": True, "label": label, "blocks": blocks,
+                      "events": [list(e) for e in events], "files": files, "tokblocks": hb.tokblocks})
+
+    def hb():
+        return HistBuilder(first_id + len(hists) + 1)
+
+    EXC = [(False, False), (True, False), (False, True), (True, True)]
+    for f in ADVERTISED:
+        a, b = f"2020/01/orbit.dat.{f}", f"2020/02/orbit.dat.{f}"
+        # (H1) two decompress blocks, the same name in different directories
+        for tds in (("explicit", "explicit"), ("default", "default"), ("explicit", "default")):
+            for shape in ("nested", "overlapping", "sequential"):
+                for (e0, e1) in (EXC if tds[0] == tds[1] and shape != "sequential" else EXC[:1]):
+                    h = hb()
+                    ca, cb = h.content(300, 70000 if f == "gz" and shape == "nested" else 50), h.content(200)
+                    add(f"two decompress blocks, same name in two directories, {shape}, tmpdir {tds}, exceptions {e0, e1}",
+                        h, [dec_block(a, tds[0]), dec_block(b, tds[1])], with_uses(NEST2[shape](e0, e1)),
+                        [archive_file(a, ca), archive_file(b, cb)])
+        # (H3) the same archive twice
+        h = hb()
+        ca = h.content(120)
+        add("the same archive in two nested decompress blocks", h, [dec_block(a, "explicit"), dec_block(a, "explicit")],
+            with_uses(NEST2["nested"](False, False)), [archive_file(a, ca)])
+        # (H4) three blocks with the same stem
+        c = f"2020/03/orbit.dat.{f}"
+        for td in ("explicit", "default"):
+            for label, order in (("nested", [("E", 0), ("E", 1), ("E", 2), ("L", 2, False), ("L", 1, True), ("L", 0, False)]),
+                                 ("first in first out", [("E", 0), ("E", 1), ("E", 2), ("L", 0, False), ("L", 1, False), ("L", 2, True)]),
+                                 ("middle first", [("E", 0), ("E", 1), ("E", 2), ("L", 1, False), ("L", 2, False), ("L", 0, False)])):
+                h = hb()
+                ca, cb, cc = h.content(100), h.content(0) if label == "nested" else h.content(40, 40), h.content(900)
+                if label == "nested":
+                    cb = []                                     # an archive of nothing
+                add(f"three decompress blocks with the same stem, {label}, tmpdir {td}", h,
+                    [dec_block(a, td), dec_block(b, td), dec_block(c, td)], with_uses(order),
+                    [archive_file(a, ca), archive_file(b, cb), archive_file(c, cc)])
+        # (H5) bystanders in the temporary directory: the stem, the archive's name, 'temp', ...
+        for td in ("explicit", "default"):
+            for nblocks in (1, 2):
+                h = hb()
+                ca, cb = h.content(64), h.content(65)
+                by = [bystander(td, nm, h.content(10)) for nm in ("orbit.dat", f"orbit.dat.{f}", "temp", "orbit", "copy.bin")]
+                blocks = [dec_block(a, td), dec_block(b, td)][:nblocks]
+                order = [("E", 0), ("L", 0, False)] if nblocks == 1 else NEST2["nested"](False, True)
+                add(f"{nblocks} decompress block(s) beside bystanders named like the stem / the archive / 'temp' in tmpdir {td}",
+                    h, blocks, with_uses(order), [archive_file(a, ca), archive_file(b, cb)] + by)
+            h = hb()
+            cw = h.content(80)
+            by = [bystander(td, nm, h.content(10)) for nm in ("out.dat", f"out.dat.{f}", "temp")]
+            add(f"a compress block beside bystanders in tmpdir {td}", h, [comp_block(f"new/out.dat.{f}", cw, td)],
+                with_uses([("E", 0), ("L", 0, False)]), by)
+        # (H6) compress blocks on targets with the same base name in different directories
+        ta, tb = f"a.d/out.dat.{f}", f"b.d/out.dat.{f}"
+        for td in ("explicit", "default"):
+            for shape in ("nested", "overlapping"):
+                for (e0, e1) in EXC:
+                    h = hb()
+                    ca, cb, old = h.content(500, 20), h.content(30), h.content(15)
+                    add(f"two compress blocks, same base name, {shape}, tmpdir {td}, exceptions {e0, e1}", h,
+                        [comp_block(ta, ca, td), comp_block(tb, cb, td)], with_uses(NEST2[shape](e0, e1)),
+                        [archive_file(tb, old, watch=False)] if e1 else [])
+        # (H7) a compress block inside a decompress block of the same stem (and the other way round)
+        for td in ("explicit", "default"):
+            for tgt, lab in ((f"new/orbit.dat.{f}", "a new target with the same base name"), (a, "the archive that is being read")):
+                for e1 in (False, True):
+                    h = hb()
+                    ca, cw = h.content(210), h.content(77)
+                    add(f"a compress block onto {lab} inside a decompress block, exception in the compress body {e1}, tmpdir {td}",
+                        h, [dec_block(a, td), comp_block(tgt, cw, td)], with_uses(NEST2["nested"](False, e1)),
+                        [archive_file(a, ca, watch=(tgt != a))])
+            h = hb()
+            ca, cw = h.content(33), h.content(44)
+            add(f"a decompress block inside a compress block of the same stem, tmpdir {td}", h,
+                [comp_block(f"new/orbit.dat.{f}", cw, td), dec_block(a, td)], with_uses(NEST2["overlapping"](False, False)),
+                [archive_file(a, ca)])
+        # (H8) the inner block cannot be entered (missing / damaged archive); a compress block that writes nothing
+        for kind in ("missing", "garbage"):
+            h = hb()
+            ca = h.content(90)
+            files = [archive_file(a, ca)]
+            if kind == "garbage":
+                files.append({"where": "work", "path": b, "kind": "garbage", "read_fmt": f, "watch": True})
+            add(f"inner decompress block on a {kind} archive of the same stem", h,
+                [dec_block(a, "explicit"), dec_block(b, "explicit")], with_uses(NEST2["nested"](False, False)), files)
+        h = hb()
+        ca, cw = h.content(12), h.content(13)
+        add("inner compress block that writes nothing", h, [dec_block(a, "explicit"), comp_block(f"new/orbit.dat.{f}", cw, "explicit")],
+            with_uses(NEST2["nested"](False, False), skip_write=(1,)), [archive_file(a, ca)])
+    # (H2) the same stem with different compression suffixes in one directory
+    for (x, y) in (("scene.gz", "scene.bz2"), ("d.v1/scene.x.zip", "d.v1/scene.x.xz"), ("s.xz", "s.gz"), ("p/q.bz2", "p/q.zip")):
+        for td in ("explicit", "default"):
+            for shape in ("nested", "overlapping"):
+                h = hb()
+                ca, cb = h.content(150), h.content(151)
+                add(f"two decompress blocks, same stem / different suffixes, {shape}, tmpdir {td}", h,
+                    [dec_block(x, td), dec_block(y, td)], with_uses(NEST2[shape](False, shape == "nested")),
+                    [archive_file(x, ca), archive_file(y, cb)])
+    # (H9) names that are passed through among the others
+    h = hb()
+    ca, cr, cw = h.content(20), h.content(21), h.content(22)
+    add("passed-through names among compressed ones", h,
+        [dec_block("2020/01/orbit.dat.gz", "explicit"), dec_block("2020/02/orbit.dat", "explicit"),
+         comp_block("2020/03/orbit.dat", cw, "explicit")],
+        with_uses([("E", 0), ("E", 1), ("E", 2), ("L", 1, False), ("L", 2, False), ("L", 0, False)]),
+        [archive_file("2020/01/orbit.dat.gz", ca), {"where": "work", "path": "2020/02/orbit.dat", "kind": "raw", "tokens": cr, "watch": True}])
+    # (H10) random histories: 2-4 blocks over a small pool of names that share stems, random interleavings, a few events
+    # on blocks that are not open
+    rng = ctx.rng
+    for _ in range(ctx.n(120, 3000)):
+        h = hb()
+        f = rng.choice(ADVERTISED)
+        g = rng.choice(ADVERTISED)
+        pool = [f"2020/01/orbit.dat.{f}", f"2020/02/orbit.dat.{f}", f"2020/02/orbit.dat.{g}", f"2020/01/orbit.{f}",
+                f"x/scene.{g}", f"y/scene.{f}"]
+        nb = rng.choice([2, 2, 3, 3, 4])
+        blocks, files, have = [], [], {}
+        for i in range(nb):
+            td = rng.choice(["explicit", "explicit", "default"])
+            if rng.random() < 0.7:
+                nm = rng.choice(pool)
+                blocks.append(dec_block(nm, td))
+                if nm not in have and rng.random() < 0.92:
+                    have[nm] = h.content(rng.choice([1, 30, 2000]), *([rng.choice([5, 500])] if rng.random() < 0.3 else []))
+            else:
+                nm = rng.choice(pool + [f"new/orbit.dat.{f}", f"new2/orbit.dat.{f}"])
+                blocks.append(comp_block(nm, h.content(rng.choice([1, 40, 3000])), td))
+        targets = {b["name"] for b in blocks if b["kind"] == "comp"}
+        files = [archive_file(nm, toks, watch=nm not in targets) for nm, toks in have.items()]
+        for td in ("explicit", "default"):
+            if rng.random() < 0.35:
+                files.append(bystander(td, rng.choice(["orbit.dat", "orbit", "scene", "temp", f"orbit.dat.{f}"]), h.content(9)))
+        seenby = set()
+        files = [fl for fl in files if not ((fl["where"], fl["path"]) in seenby or seenby.add((fl["where"], fl["path"])))]
+        state = {i: 0 for i in range(nb)}          # 0 not entered, 1 open, 2 left
+        evs = []
+        for _step in range(rng.randint(2 * nb, 5 * nb + 4)):
+            i = rng.randrange(nb)
+            if rng.random() < 0.08:
+                evs.append(rng.choice([["U", i], ["L", i, False], ["E", i]]))       # possibly on a block that is not open
+                if evs[-1][0] == "E" and state[i] != 1:
+                    state[i] = 1
+                elif evs[-1][0] == "L" and state[i] == 1:
+                    state[i] = 2
+                continue
+            if state[i] == 0 or (state[i] == 2 and rng.random() < 0.3):
+                evs.append(["E", i])
+                state[i] = 1
+            elif state[i] == 1:
+                if rng.random() < 0.6:
+                    evs.append(["U", i])
+                else:
+                    evs.append(["L", i, rng.random() < 0.3])
+                    state[i] = 2
+        for i in range(nb):
+            if state[i] == 1:
+                if rng.random() < 0.8:
+                    evs.append(["U", i])
+        for i in rng.sample(range(nb), nb):
+            evs.append(["L", i, False])
+        add("random history", h, blocks, evs, files)
+    return hists
+
+
+def s2l(x):
+    return f"(s2l {qs(x)})"
+
+
+def hist_expr(c):
+    bl = []
+    for b in c["blocks"]:
+        if b["kind"] == "dec":
+            bl.append(f"(BDec {s2l('W/' + b['name'])} {s2l(TMPHINT[b['tmpdir']])})")
+        else:
+            fa = "None" if b["fmtarg"] is None else f"(Some {s2l(b['fmtarg'])})"
+            bl.append(f"(BComp {s2l('W/' + b['name'])} {fa} {zlist(b['b'])} {s2l(TMPHINT[b['tmpdir']])})")
+    evs = []
+    for e in c["events"]:
+        if e[0] == "E":
+            evs.append(f"(Enter {int(e[1])}%nat)")
+        elif e[0] == "U":
+            evs.append(f"(Use {int(e[1])}%nat)")
+        else:
+            evs.append(f"(Leave {int(e[1])}%nat {core.coq_bool(e[2])})")
+    fs, watched = [], []
+    for fl in c["files"]:
+        path = WHERE[fl["where"]] + fl["path"]
+        if fl["kind"] == "archive":
+            fs.append(f"({s2l(path)}, toy_enc {s2l(fl['fmt'])} {s2l(fl['member'])} {zlist(fl['tokens'])})")
+        elif fl["kind"] == "raw":
+            fs.append(f"({s2l(path)}, {zlist(fl['tokens'])})")
+        else:
+            fs.append(f"({s2l(path)}, [(-1)])")
+        if fl.get("watch"):
+            watched.append(s2l(path))
+    return (coq_list(bl), coq_list(evs), coq_list(fs), coq_list(watched))
+
+
+def check_hists(ctx, hists):
+    by_id, table, ufile = run_impl(ctx, hists)
+    exprs, used = [], []
+    for c in hists:
+        r = by_id.get(c["id"])
+        if r is None:
+            continue
+        if "error" in r:
+            ctx.fail("correspondence", f"harness error: {r['error']}", case=c, signature="harness-error")
+            continue
+        bl, evs, fs, watched = hist_expr(c)
+        codes = coq_list([zlist(x) for x in r["codes"]])
+        watch = coq_list([zlist(x) for x in r["watch"]])
+        targets = coq_list([opt_zs(x) for x in r["targets"]])
+        exprs.append(f"eval_hist known_compressions {bl} {evs} {fs} {watched} {codes} {watch} {targets}")
+        used.append((c, r))
+    vals, log = core.coq_eval(ctx.work / "cases", "hist", PREAMBLE, exprs, shard=60)
+    if log:
+        ctx.log(log[-2000:])
+    nontrivial = set()
+    shapes = {}
+    for (c, r), v in zip(used, vals):
+        ctx.cov["evaluations"] += 1
+        if v is None:
+            ctx.fail("correspondence", "Coq evaluation of the model failed", case=c, signature="coq-eval")
+            continue
+        mcodes, mwatch, mtargets, viol, mviol = v
+        mtargets = [unopt(x) for x in mtargets]
+        descr = (f"{c['label']}: blocks={[(b['kind'], b['name'], b['tmpdir']) for b in c['blocks']]} "
+                 f"events={c['events']} files={[(f['where'], f['path'], f['kind']) for f in c['files']]}")
+        fmts = sorted({(b["fmt_eff"] if b["kind"] == "comp" else fmt_of(b["name"])) for b in c["blocks"]})
+        for n in sorted(set(viol)):
+            ctx.fail("failing-input", f"{CLAUSES[n]}: {descr}; observed per event [temporary entries, code...]={r['codes']} "
+                     f"files [exists, same]={r['watch']} targets={r['targets']}",
+                     case=c, impl={"codes": r["codes"], "watch": r["watch"], "targets": r["targets"]},
+                     model={"codes": mcodes, "watch": mwatch, "targets": mtargets},
+                     signature=f"clause{n}-{'+'.join(f if f in ADVERTISED else 'passthrough' for f in fmts)}"[:60])
+        if mviol and sorted(table or []) == sorted(ADVERTISED):
+            ctx.fail("proof", f"the model's own observations of a history are rejected by the laws (clauses {mviol}): {descr}",
+                     case=c, model={"codes": mcodes, "watch": mwatch, "targets": mtargets}, signature="model-vs-spec-hist")
+        if not viol:
+            icodes = [[x[0]] + (x[1:3] + canon(x[3:]) if x[1:3] == [2, 1] else x[1:]) for x in r["codes"]]
+            mcodes_c = [[x[0]] + (x[1:3] + canon(x[3:]) if x[1:3] == [2, 1] else x[1:]) for x in mcodes]
+            diffs = []
+            if icodes != mcodes_c:
+                k = next((j for j, (x, y) in enumerate(zip(icodes, mcodes_c)) if x != y), None)
+                diffs.append(f"event {k} {c['events'][k] if k is not None else ''}: implementation {icodes[k] if k is not None else icodes} "
+                             f"model {mcodes_c[k] if k is not None else mcodes_c}")
+            if r["watch"] != mwatch:
+                diffs.append(f"files [exists, same]: implementation {r['watch']} model {mwatch}")
+            if [canon(x) for x in r["targets"]] != [canon(x) for x in mtargets]:
+                diffs.append(f"targets: implementation {r['targets']} model {mtargets}")
+            if diffs:
+                ctx.fail("correspondence", "model and implementation differ on a history of several blocks: " + "; ".join(diffs)
+                         + " -- " + descr + " [per event: temporary entries alive, then 0 skipped | 1 raised yielded | 2 0 no file | "
+                         "2 1 tokens read | 3 written | 4 raised]", case=c,
+                         impl={"codes": r["codes"], "watch": r["watch"], "targets": r["targets"]},
+                         model={"codes": mcodes, "watch": mwatch, "targets": mtargets}, signature="model-vs-impl-history")
+        peak = max((x[0] for x in r["codes"]), default=0)
+        if peak >= 2 or any(f["where"] != "work" for f in c["files"]):
+            nontrivial.add(json.dumps({k: c[k] for k in ("blocks", "events", "files")}, sort_keys=True))
+        key = c["label"].split(",")[0]
+        shapes[key] = shapes.get(key, 0) + 1
+        if c["id"] % 53 == 0:
+            ctx.sample({"history": {k: c[k] for k in ("label", "blocks", "events")}, "observed": r["codes"]}, limit=9)
+    return len(nontrivial), shapes
+
+
 # ----------------------------------------------------------------------------- names
 
 def check_names(ctx):
@@ -600,7 +961,9 @@ def run(ctx):
     core.coq_build([GENFILE, core.THEORIES / "Model" / "C12_compress.v"])
     cases = gen_cases(ctx)
     nnames = check_names(ctx)
+    hists = gen_hists(ctx, len(cases))
     nt, fired, skipped, not_fired, table, ufile = check_cases(ctx, cases)
+    nth, hshapes = check_hists(ctx, hists)
     if table is not None and sorted(keys) != sorted(table):
         ctx.fail("translation", f"translated key set {sorted(keys)} differs from the table of the imported module {table}",
                  obligation="coq/gen/C12_formats.v", signature="translation")
@@ -608,13 +971,17 @@ def run(ctx):
         ctx.fail("correspondence", f"the child imported {ufile}, not the tree under test {core.REPO}", signature="wrong-tree")
     ctx.add_obligation("translation of _known_compressions", bool(keys) and (table is None or sorted(keys) == sorted(table)),
                        f"keys {keys}")
-    ctx.cov["distinct_nontrivial"] = nt
+    ctx.cov["distinct_nontrivial"] = nt + nth
     ctx.cov["rule"] = ("a case is one history on a private sandbox: optional prior file, `with compress(name, fmt, tmpdir)` writing "
                        "the content, `with decompress(name, tmpdir, target)` reading it, each with at most one injected fault; "
                        "non-trivial = an injected fault fired, or a compress+decompress round trip of non-empty content, or a "
-                       "pre-existing archive (genuine, truncated, corrupted, foreign); distinct by the whole case description")
+                       "pre-existing archive (genuine, truncated, corrupted, foreign); distinct by the whole case description.  "
+                       "A history is a list of enter / use / leave events over 1-4 compress / decompress blocks on one sandbox "
+                       "(context managers entered and left by hand, so that blocks overlap in any order); non-trivial = at least "
+                       "two temporary entries were alive at the same time, or bystander files lay in a temporary directory")
     ctx.cov["input_distribution"] = {
         "cases": len(cases), "names_compared_with_os.path": nnames,
+        "histories_of_several_blocks": len(hists), "nontrivial_histories": nth, "history_families": hshapes,
         "formats": {f: sum(1 for c in cases if (c["fmt_eff"] if c["comp"] else c["fmt_name"]) == f) for f in ADVERTISED},
         "passthrough_names": sum(1 for c in cases if fmt_of(c["name"]) not in ADVERTISED),
         "contents": {k: sum(1 for c in cases if c["content"] == k) for k in CONTENT},
@@ -629,6 +996,9 @@ def run(ctx):
         "one fault per with-block; cleanup primitives (TemporaryDirectory.__exit__, os.unlink) themselves do not fail",
         "the block writes the yielded path with ordinary file operations and does not remove it itself",
         "property clauses 3, 4, 7 are checked for the four advertised formats (suffix or fmt=), clauses 2 and 8 for all other names",
+        "histories of several blocks (nested_blocks_independent): tempfile.NamedTemporaryFile / TemporaryDirectory return names that "
+        "do not exist (fresh_file_ok / fresh_dir_ok) and the caller's names are not such names (no generated name contains '/tmp'); "
+        "blocks are entered, used and left one event at a time in one thread (no preemption inside a phase)",
     ]
     return ctx.finish(trusted_base=TRUSTED)
 
@@ -642,6 +1012,8 @@ def replay(ctx, rec):
         ctx.prove("Props/C12.v")
     elif "name_only" in case:
         check_names(ctx)
+    elif case.get("hist"):
+        check_hists(ctx, [case])
     else:
         check_cases(ctx, [case])
     for f in ctx.failures:
